@@ -44,6 +44,7 @@ func (m *memRoutes) Flush(full []*route.Route, saves []*route.Route, removes []*
 // svcWorld is an in-process ipchub server: the real Service (HTTP mux with
 // interceptors and API, RTSP and WSP accept handlers) without any socket.
 type svcWorld struct {
+	wsConnection string // when set: the Connection header of the next WebSocket handshakes
 	w        *sim.World
 	svc      *service.Service
 	base     [3]stats.ConnsSample
